@@ -126,7 +126,10 @@ TOffer ==
            p   == e.prop
            vd  == e.verd
            gap == Inconsistency(c, prev, off)
-       IN /\ Note(If(\A i \in 1..Len(vd) : vd[i][2] # 2 /\ vd[i][3] # 2, "ValidatorNoPanic")
+       IN /\ Note(If(\A i \in 1..Len(vd) : vd[i][2] # 2 /\ vd[i][3] # 2 /\ vd[i][6] # 2, "ValidatorNoPanic")
+                  \* the validators' whole proposal path (pengings.Proposals.AddProposedBlock; 6th field, -1 = proposer without valid
+                  \* sortition) admits a proposal exactly when the detector's rules hold
+                  \cup If(\A i \in 1..Len(vd) : vd[i][6] \in {-1, 2} \/ ((vd[i][6] = 1) <=> DetAccepts(cfgv, c, prev, off, tov[vd[i][1]])), "ProposalPath")
                   \cup If(\A i \in 1..Len(vd) : vd[i][2] = 2 \/ ((vd[i][2] = 1) <=> DetAccepts(cfgv, c, prev, off, tov[vd[i][1]])), "ValidatorVerdict")
                   \cup If(ChainMustRefuse(off) => \A i \in 1..Len(vd) : vd[i][3] # 1, "ChainRefusesNoAddress")
                   \cup If(gap = "" \/ \A i \in 1..Len(vd) : vd[i][3] # 1, "ChainPathGap:" \o gap)
